@@ -229,6 +229,12 @@ func monC15(c *drv.Ctx) {
 			cs.Fail("nocopy-length-accounting", M{"struct": isBase}, M{"message": fmt.Sprintf("BLength %d, reference encoding %d", bl, len(want))})
 			return
 		}
+		// the copying path itself (maps with <= 1 entry have one encoding)
+		cp := make([]byte, bl+8)
+		if n := codec.(interface{ FastWrite([]byte) int }).FastWrite(cp); n != bl || (len(extra) <= 1 && !bytes.Equal(cp[:n], want)) {
+			cs.Fail("copying-path-differs", M{"struct": isBase}, M{"message": fmt.Sprintf("FastWrite wrote %d bytes, BLength / no-copy length %d (empty non-nil map: %v)", n, bl, extra != nil && len(extra) == 0)})
+			return
+		}
 		// the struct is a (possibly non-final) part of a larger buffer: pre bytes before, post bytes after
 		pre, post := []int{0, 3, 100}[r.Intn(3)], []int{0, 0, 1, 50, 5000}[r.Intn(5)]
 		whole := window(pre+bl+post, spare)
